@@ -20,6 +20,7 @@
 extern int h_fail_mmap;   /* io_wrap.c */
 typedef struct { size_t off, hs, len; uint32_t crc; int has_crc; int rg, col, page; } pageloc;
 
+static int find_pages(const uint8_t* b, size_t n, pageloc* out, int cap);
 static uint8_t* write_base(hctx* h, size_t* n, int codec) {
     char path[128]; snprintf(path, sizeof path, "/tmp/verif_pg_%d.parquet", (int)getpid());
     for (;;) {
@@ -31,7 +32,9 @@ static uint8_t* write_base(hctx* h, size_t* n, int codec) {
         if (!ok) continue;
         FILE* f = fopen(path, "rb"); fseek(f, 0, SEEK_END); long sz = ftell(f); fseek(f, 0, SEEK_SET);
         uint8_t* b = h_alloc((size_t)sz); if (fread(b, 1, (size_t)sz, f) != (size_t)sz) sz = 0; fclose(f); unlink(path);
-        if (sz > 12) { *n = (size_t)sz; return b; }
+        /* a file without a single page body says nothing about page checksums: draw again */
+        if (sz > 12) { pageloc pl[64]; int np = find_pages(b, (size_t)sz, pl, 64), bodies = 0; for (int q = 0; q < np; q++) if (pl[q].len > 0) bodies++;
+                       if (bodies > 0) { *n = (size_t)sz; return b; } }
         free(b);
     }
 }
@@ -151,6 +154,7 @@ static uint8_t* write_forced(hctx* h, size_t* n, uint32_t target) {
 }
 
 static void damage_pages(hctx* h, const uint8_t* base, size_t n, int per);
+static int g_pg_codec;     /* codec of the file under damage (printed with each page) */
 
 /* two REQUIRED INT32 UNCOMPRESSED columns, `pages` data pages of exactly `rpp` rows each per chunk (page_size = 4 * rpp, one batch
  * per page): all page headers and bodies of a chunk have the same size, so a reader that loses track of the page position after a
@@ -175,7 +179,33 @@ static uint8_t* write_equal_pages(hctx* h, size_t* n, int pages, int rpp) {
     *n = (size_t)sz; return b;
 }
 
+/* one REQUIRED INT32 SNAPPY column of 12..16 values that do not compress: the page body is the length preamble, ONE literal
+ * element (tag (len - 1) << 2 for len <= 60) and the values; the first value has its top byte >= 0x80, so that a tag turned
+ * into "literal with a 4-byte length" by a single flipped bit announces 2^31 bytes or more */
+static uint8_t* write_snappy_literal(hctx* h, size_t* n, int variant) {
+    char path[128]; snprintf(path, sizeof path, "/tmp/verif_pg_%d_s.parquet", (int)getpid());
+    static const int nvs[] = { 12, 13, 15 };
+    static const uint32_t firsts[] = { 0x80000000u, 0xFF000000u, 0xFFFFFFFFu };
+    int nv = nvs[variant % 3];
+    int32_t vals[16]; for (int i = 0; i < nv; i++) vals[i] = (int32_t)(h_next(h) | 1u);
+    memcpy(&vals[0], &firsts[variant % 3], 4);
+    carquet_error_t err; memset(&err, 0, sizeof err);
+    carquet_schema_t* sc = carquet_schema_create(&err);
+    (void)!carquet_schema_add_column(sc, "v", CARQUET_PHYSICAL_INT32, NULL, CARQUET_REPETITION_REQUIRED, 0);
+    carquet_writer_options_t wo; carquet_writer_options_init(&wo); wo.compression = CARQUET_COMPRESSION_SNAPPY;
+    carquet_writer_t* w = carquet_writer_create(path, sc, &wo, &err);
+    (void)!carquet_writer_write_batch(w, 0, vals, nv, NULL, NULL);
+    (void)!carquet_writer_close(w); carquet_schema_free(sc);
+    FILE* f = fopen(path, "rb"); fseek(f, 0, SEEK_END); long sz = ftell(f); fseek(f, 0, SEEK_SET);
+    uint8_t* b = h_alloc((size_t)sz); if (fread(b, 1, (size_t)sz, f) != (size_t)sz) sz = 0; fclose(f); unlink(path);
+    *n = (size_t)sz; return b;
+}
+static void damage_head_bits(hctx* h, const uint8_t* base, size_t n, size_t head);
+
 static void gen_pagecrc(hctx* h) {
+    /* every single bit of the first bytes of a page body: the codec's own framing (length preamble, first element tag) */
+    for (int t = 0; t < 3; t++) { size_t n; uint8_t* b = write_snappy_literal(h, &n, t); g_pg_codec = 1; damage_head_bits(h, b, n, 3); g_pg_codec = 0; free(b); }
+
     /* boundary-directed: page bodies whose checksum takes the values a presence test could confuse with "absent" */
     static const uint32_t targets[] = { 0u, 0xFFFFFFFFu, 1u, 0x80000000u };
     for (int t = 0; t < 4; t++) { size_t n; uint8_t* b = write_forced(h, &n, targets[t]); damage_pages(h, b, n, 9); free(b); }
@@ -188,7 +218,9 @@ static void gen_pagecrc(hctx* h) {
     int files = h->thorough ? 20 : 5;
     for (int fi = 0; fi < files; fi++) {
         size_t n; uint8_t* base = write_base(h, &n, codecs[fi % 5]);
+        g_pg_codec = codecs[fi % 5];
         damage_pages(h, base, n, h->thorough ? 30 : 12);
+        g_pg_codec = 0;
         free(base);
     }
 }
@@ -196,7 +228,7 @@ static void gen_pagecrc(hctx* h) {
 static void damage_pages(hctx* h, const uint8_t* base, size_t n, int per_page) {
         pageloc pl[64]; int np = find_pages(base, n, pl, 64);
         for (int p = 0; p < np; p++) {
-            fprintf(h->out, "pgcrc rg=%d col=%d page=%d len=%zu crc=%u | has_crc=%d p_page_has_crc=%d\n", pl[p].rg, pl[p].col, pl[p].page, pl[p].len, pl[p].crc, pl[p].has_crc, pl[p].has_crc);
+            fprintf(h->out, "pgcrc codec=%d rg=%d col=%d page=%d len=%zu crc=%u | has_crc=%d p_page_has_crc=%d\n", g_pg_codec, pl[p].rg, pl[p].col, pl[p].page, pl[p].len, pl[p].crc, pl[p].has_crc, pl[p].has_crc);
             h->n_lines++;
             if (pl[p].len == 0) continue;
             size_t bits = pl[p].len * 8;
@@ -219,6 +251,14 @@ static void damage_pages(hctx* h, const uint8_t* base, size_t n, int per_page) {
                 one_damage(h, base, n, &pl[p], (k + p) % 4, start, m, 5);
             }
         }
+}
+
+static void damage_head_bits(hctx* h, const uint8_t* base, size_t n, size_t head) {
+    pageloc pl[64]; int np = find_pages(base, n, pl, 64);
+    for (int p = 0; p < np; p++) {
+        size_t bytes = pl[p].len < head ? pl[p].len : head;
+        for (size_t b = 0; b < bytes * 8; b++) { uint8_t m[1] = { 1 }; one_damage(h, base, n, &pl[p], (int)(b % 3), b, m, 1); }
+    }
 }
 
 static int replay_pagecrc(hctx* h, const h_line* l) { (void)h; (void)l; return 0; }  /* needs the whole file; re-run by seed */
